@@ -3,7 +3,7 @@ From V.gen Require Consts.
 From V.common Require Import Wire Varint Protobuf.
 From V.C18 Require Model.
 From V.C03 Require Model.
-From V.C19 Require Import Model Proofs.
+From V.C19 Require Import Model Proofs MsProofs.
 Import ListNotations.
 Open Scope N_scope.
 From V.C19 Require Import Properties.
@@ -75,6 +75,9 @@ Check (C19_alloc_multistream :
   | V.C03.Model.MProto p => (length p <= length b)%nat
   | _ => True
   end).
+Check (C19_roundtrip_multistream_protocols :
+  forall ps, Forall wf_lsname ps -> N.of_nat (length ps) <= Consts.C03_MAX_PROTOCOLS ->
+  V.C03.Model.decode_msg (V.C03.Model.encode_msg (V.C03.Model.MProtos ps)) = V.C03.Model.DOk (V.C03.Model.MProtos ps)).
 Check (C19_length_delimited_frame_len :
   forall fuel st p st' p' r,
   st_ok st -> V.C03.Model.rd_poll fuel st p = (st', p', r) ->
